@@ -212,8 +212,7 @@ Section Covered.
   Variable cfg : config.
   Variable t : table.
 
-  Notation covered := (covered cfg t).
-  Notation reg_in := (reg_in t).
+  Notation regd := (reg_in t).
 
   (* a registered or local path: the table comes back unchanged with the name *)
   Lemma register_covered p :
@@ -224,7 +223,7 @@ Section Covered.
     destruct (H eq_refl) as [n ->]. reflexivity.
   Qed.
 
-  Lemma prereg_covered c : reg_in (pre_occ cfg c) -> prereg cfg t c = Ok t.
+  Lemma prereg_covered c : regd (pre_occ cfg c) -> prereg cfg t c = Ok t.
   Proof.
     intros H. unfold prereg. destruct c as [| | |tk| | | | |]; try reflexivity. destruct tk; try reflexivity.
     rewrite register_covered.
@@ -235,10 +234,10 @@ Section Covered.
 
   (* [c] renders at [t], in every context, to its pure text without touching the table *)
   Definition pure_at (c : code) : Prop :=
-    covered c -> forall ctx, render cfg ctx t c = with_table t (ptext cfg t ctx c).
+    covered cfg t c -> forall ctx, render cfg ctx t c = with_table t (ptext cfg t ctx c).
 
   Lemma group_loop_covered name sep multi n items :
-    Forall pure_at items -> reg_in (flat_map (item_occs cfg t) items) ->
+    Forall pure_at items -> regd (flat_map (item_occs cfg t) items) ->
     forall first,
     group_loop cfg (render cfg) name sep multi n t first items =
     match pitems cfg t (ptext cfg t) name n items with
@@ -262,7 +261,7 @@ Section Covered.
   Qed.
 
   Lemma stmt_loop_covered all items :
-    Forall pure_at items -> reg_in (flat_map (stmt_item_occs cfg t) items) ->
+    Forall pure_at items -> regd (flat_map (stmt_item_occs cfg t) items) ->
     forall first,
     stmt_loop cfg (render cfg) all t first items =
     match pstmt_items cfg t (ptext cfg t) all items with
@@ -287,7 +286,7 @@ Section Covered.
 
   Lemma dict_pass1_covered pairs :
     Forall (fun kv => pure_at (fst kv) /\ pure_at (snd kv)) pairs ->
-    reg_in (flat_map (pair_occs cfg t) pairs) ->
+    regd (flat_map (pair_occs cfg t) pairs) ->
     dict_pass1 cfg (render cfg) t pairs =
     match pdict_entries cfg t (ptext cfg t) pairs with
     | Ok _ => Ok (t, map entry_at (filter (live cfg t) pairs))
@@ -338,16 +337,16 @@ Section Covered.
       intros Hcov ctx; try reflexivity.
     - cbn [render ptext]. destruct tk; cbn [render_token ptoken with_table]; try reflexivity.
       apply register_covered. intros El. apply Hcov. cbn [occs]. rewrite El. left. reflexivity.
-    - unfold PureProofs.covered in Hcov. rewrite occs_group in Hcov. cbn [render ptext].
+    - unfold covered in Hcov. rewrite occs_group in Hcov. cbn [render ptext].
       destruct (str_eqb name s_types && forallb (is_null cfg t) items); [reflexivity|].
       rewrite (group_loop_covered name sep multi (length items) items IH Hcov true).
       destruct (pitems cfg t (ptext cfg t) name (length items) items) as [xs|m]; cbn [bind with_table fst snd]; [|reflexivity].
       unfold closer. cbn [andb]. reflexivity.
-    - unfold PureProofs.covered in Hcov. rewrite occs_stmt in Hcov. cbn [render ptext].
+    - unfold covered in Hcov. rewrite occs_stmt in Hcov. cbn [render ptext].
       rewrite (stmt_loop_covered items items IH Hcov true).
       destruct (pstmt_items cfg t (ptext cfg t) items items) as [xs|m]; cbn [bind with_table]; [|reflexivity].
       rewrite group_text_join_flat. reflexivity.
-    - unfold PureProofs.covered in Hcov. rewrite occs_dict in Hcov. cbn [render ptext].
+    - unfold covered in Hcov. rewrite occs_dict in Hcov. cbn [render ptext].
       rewrite (dict_pass1_covered pairs IH Hcov).
       destruct (pdict_entries cfg t (ptext cfg t) pairs) as [es|m] eqn:Ee; cbn [bind with_table fst snd]; [|reflexivity].
       destruct (pdict_entries_spec cfg t _ _ _ Ee) as [-> Hkeys].
@@ -456,17 +455,25 @@ Section Factorisation.
     ext cfg t t' -> covered cfg t c -> ptext cfg t' ctx c = ptext cfg t ctx c.
   Proof. intros He Hc. exact (ptext_ext_all t t' He c Hc ctx). Qed.
 
-  (* the File: head, the import block of the final table, the pure text of the body at the
-     final table *)
-  Theorem file_raw_pure f t1 raw :
-    cfg_ok (file_cfg f) -> cfg = file_cfg f -> file_raw f = Ok (t1, raw) ->
-    exists s, ptext (file_cfg f) t1 false (file_group f) = Ok s /\ covered (file_cfg f) t1 (file_group f) /\
-              raw = file_head f ++ render_imports t1 (f_cgo f) ++ s.
+  (* the pure text is the text of the render at the final table AND at every later one *)
+  Corollary render_factorisation_later c ctx t t1 s t2 :
+    render cfg ctx t c = Ok (t1, s) -> ext cfg t1 t2 -> ptext cfg t2 ctx c = Ok s.
   Proof.
-    intros _ E Hr. destruct (file_raw_render _ _ _ Hr) as (s & Hs & ->). rewrite <- E in *.
-    destruct (render_factorisation _ _ _ _ _ Hs) as [Hp Hc]. exists s. repeat split; assumption.
+    intros H He. destruct (render_factorisation _ _ _ _ _ H) as [Hp Hc].
+    rewrite (ptext_ext _ _ _ ctx He Hc). exact Hp.
   Qed.
 End Factorisation.
+
+(* the File: head, the import block of the final table, the pure text of the body at the
+   final table *)
+Theorem file_raw_pure f t1 raw :
+  cfg_ok (file_cfg f) -> file_raw f = Ok (t1, raw) ->
+  exists s, ptext (file_cfg f) t1 false (file_group f) = Ok s /\ covered (file_cfg f) t1 (file_group f) /\
+            raw = file_head f ++ render_imports t1 (f_cgo f) ++ s.
+Proof.
+  intros Hc Hr. destruct (file_raw_render _ _ _ Hr) as (s & Hs & ->).
+  destruct (render_factorisation _ Hc _ _ _ _ _ Hs) as [Hp Hcov]. exists s. repeat split; assumption.
+Qed.
 
 (* ------------------------------------------------------------------ unfolding lemmas for readers *)
 Section Unfold.
@@ -521,6 +528,44 @@ Section Unfold.
     assert (IH' := IH (fun x Hx => H x (or_intror Hx))).
     destruct (is_null cfg t c) eqn:En; [exact IH'|].
     destruct (H c (or_introl eq_refl) En) as [s Hs]. unfold the_text at 1. rewrite Hs, IH'. reflexivity.
+  Qed.
+
+  Lemma pdict_entries_ok pairs :
+    (forall kv, In kv pairs -> live cfg t kv = true -> exists k, ptext cfg t false (fst kv) = Ok k) ->
+    pdict_entries cfg t (ptext cfg t) pairs = Ok (map (pentry_of (ptext cfg t)) (filter (live cfg t) pairs)).
+  Proof.
+    induction pairs as [|kv l IH]; intros H; [reflexivity|]. cbn [pdict_entries filter].
+    assert (IH' := IH (fun x Hx => H x (or_intror Hx))).
+    pose proof (H kv (or_introl eq_refl)) as Hkv. unfold live in Hkv |- * at 1.
+    destruct (is_null cfg t (fst kv) || is_null cfg t (snd kv)); cbn [negb] in *; [exact IH'|].
+    destruct (Hkv eq_refl) as [k Hk]. rewrite Hk, IH'. cbn [bind map]. unfold pentry_of at 2, ktxt. rewrite Hk.
+    reflexivity.
+  Qed.
+
+  Definition pair_text (kv : code * code) : str * str := (the_text false (fst kv), the_text false (snd kv)).
+
+  Lemma pvalues_ok l :
+    (forall kv, In kv l -> exists v, ptext cfg t false (snd kv) = Ok v) ->
+    pvalues (map (pentry_of (ptext cfg t)) l) = Ok (map pair_text l).
+  Proof.
+    induction l as [|kv l IH]; intros H; [reflexivity|]. cbn [map pvalues pentry_of fst snd].
+    destruct (H kv (or_introl eq_refl)) as [v Hv]. rewrite Hv, (IH (fun x Hx => H x (or_intror Hx))).
+    cbn [bind]. unfold pair_text at 2, the_text at 2. rewrite Hv. reflexivity.
+  Qed.
+
+  (* Dict, when no key and no value fails: the pairs with both sides non-null, as (key text,
+     value text), sorted by key text, in the dict_body layout *)
+  Lemma ptext_dict_ok ctx pairs :
+    (forall kv, In kv pairs -> live cfg t kv = true ->
+       (exists k, ptext cfg t false (fst kv) = Ok k) /\ exists v, ptext cfg t false (snd kv) = Ok v) ->
+    ptext cfg t ctx (CDict pairs) =
+    Ok (dict_body (isort_by fst (map pair_text (filter (live cfg t) pairs)))).
+  Proof.
+    intros H. rewrite ptext_dict, pdict_entries_ok by (intros kv Hin Hl; apply (H kv Hin Hl)). cbn [bind].
+    rewrite <- (isort_by_map (fun kv => the_text false (fst kv)) fst (pentry_of (ptext cfg t)) (fun kv => eq_refl)).
+    rewrite pvalues_ok.
+    - cbn [bind]. rewrite (isort_by_map (fun kv => the_text false (fst kv)) fst pair_text (fun kv => eq_refl)). reflexivity.
+    - intros kv Hin. apply isort_by_In in Hin. apply filter_In in Hin. destruct Hin as [Hin Hl]. apply (H kv Hin Hl).
   Qed.
 
   (* Qual(p, n) *)
@@ -597,7 +642,9 @@ Section Positions.
       destruct (pitems_In cfg _ _ _ _ _ _ _ Ep Hin En) as (sx & Hsx & Hix).
       destruct (IH _ _ Hsx) as (ctx' & s' & pre & post & Hp & ->).
       destruct (group_text_In sep multi xs _ Hix true) as (a & b & Eg).
-      exists ctx', s'. eexists (_ ++ a ++ pre), (post ++ b ++ _ ++ _). split; [exact Hp|].
+      set (o' := if str_eqb name s_block && ctx then [] else o).
+      set (cl' := if str_eqb name s_block && ctx then [] else cl).
+      exists ctx', s', (o' ++ a ++ pre), (post ++ b ++ closer sep multi cl' xs ++ cl'). split; [exact Hp|].
       rewrite Eg, <- !app_assoc. reflexivity.
     - rewrite ptext_stmt in Hs.
       destruct (pstmt_items cfg t (ptext cfg t) items items) as [xs|m] eqn:Ep; cbn [bind] in Hs; [|discriminate].
@@ -671,4 +718,21 @@ Proof.
     destruct (registered_entry _ _ _ Eq) as (d & Hd & Hn & _). exists q, d.
     repeat split; try assumption; try reflexivity.
     intros cgo. apply render_imports_has_spec. apply alookup_In. exact Hd.
+Qed.
+
+(* one qualifier per path: there is ONE q such that every written Qual(p, _) of the tree
+   stands in the text as q.name *)
+Corollary qual_occurrences_same_q cfg : cfg_ok cfg -> forall ctx t c t1 s,
+  render cfg ctx t c = Ok (t1, s) ->
+  forall p, is_dot cfg t1 p || is_local cfg p = false ->
+  (exists gid n, rendered_in cfg t1 (qual gid p n) c) ->
+  exists q, registered_name t1 p = Some q /\
+    forall gid n, rendered_in cfg t1 (qual gid p n) c -> exists pre post, s = pre ++ q ++ S "." ++ n ++ post.
+Proof.
+  intros Hcfg ctx t c t1 s Hr p Hnb (gid0 & n0 & H0).
+  destruct (qual_occurrences cfg Hcfg _ _ _ _ _ Hr _ _ _ H0) as (w0 & _ & _ & _ & _ & _ & Hq0).
+  destruct (Hq0 Hnb) as (q & _ & Hq & _). exists q. split; [exact Hq|].
+  intros gid n H. destruct (qual_occurrences cfg Hcfg _ _ _ _ _ Hr _ _ _ H) as (w & pre & post & Hs & _ & _ & Hq1).
+  destruct (Hq1 Hnb) as (q' & _ & Hq' & Hw & _). rewrite Hq in Hq'. injection Hq' as <-.
+  exists pre, post. rewrite Hs, Hw, <- !app_assoc. reflexivity.
 Qed.
